@@ -26,8 +26,9 @@ import lib
 ID = 'C11'
 PROPS_FILE = 'Props/C11.v'
 MODEL_FILES = ['Heap/Heap.v']
-K_NAME = ('K_heap (Heap.run_hevents: deepcopy / VectorContainer.copy / BaseLinker.copy / __init__ chain / operations as heap actions, '
-          'vs the real objects: trees below every root and shared-object scan)')
+K_NAME = ('K_heap (Heap.check_kcase extracted to OCaml: run_hevents = deepcopy with memo / VectorContainer.copy / BaseLinker.copy / the '
+          '__init__ chain / reindex / every public operation as primitive heap actions, vs the real objects: the tree below every '
+          'root (instances AND class objects) and the shared-object scan of every pair of roots)')
 RULE = ('a case is a history over containers, parser-style BaseModel classes (CHECK is ENDOGENOUS or a separate list), Alias/Tracer '
         'mixin combinations and linkers with two submodels: instantiation (range / tuple / list / caller-shared list span, strict), '
         'the three copy routes at random points, reindex, operations on either side (item / whole-series / scalar assignment, '
@@ -103,7 +104,10 @@ class Enc:
             return 2 * int(x)
         if k[0] == 's' and k[1] in WKI:
             return 2 * WKI[k[1]] + 1
-        self.add(x)
+        if repr(k) not in self.tab:
+            # a scalar the case did not announce (a value computed by a parser-built model's own equations): a code that depends
+            # on the value only, never on the order in which the two sides meet it
+            return 2 * (2 ** 40 + int(hashlib.md5(repr(k).encode()).hexdigest()[:10], 16)) + 1
         return 2 * (len(WK) + self.tab[repr(k)]) + 1
 
 
@@ -1417,12 +1421,15 @@ def finish(case):
     vars_of = [None] * n_cls
     kinds = [None] * n_cls
     reindex_old = {}
+    class_names = [list(d['endo']) + list(d['exo']) for d in case['classes']]      # the class NAMES lists as the history mutates them
     for ev in case['events']:
+        if ev[0] == 'op' and ev[1] < n_cls and ev[2][0] == 'lappend' and ev[2][1] == 'NAMES':
+            class_names[ev[1]].append(ev[2][2])
         if ev[0] == 'init':
             sd = ev[2]['span']
             spans.append(list(make_span(case['shared_spans'][sd['id']] if sd['kind'] == 'shared' else sd)))
             d = case['classes'][ev[1]]
-            vars_of.append({nm: 'float' for nm in d['endo'] + d['exo']})
+            vars_of.append({nm: 'float' for nm in class_names[ev[1]]})
             kinds.append(d)
         elif ev[0] == 'copy':
             spans.append(list(spans[ev[1]]) if spans[ev[1]] is not None else None)
